@@ -128,13 +128,28 @@ def generate(seed, tier):
     for i, src in enumerate(pool):
         for nm in set(re.findall(r"struct\s+(\w+)\s*\{", src)):
             by_name.setdefault("struct " + nm, []).append(i)
+    # sources that use a rarely used language feature together with the sources whose meaning
+    # would change if that feature leaked (optional arguments <-> overloads that differ in arity)
+    opt_users = [i for i, src in enumerate(pool) if "__optional" in src]
+    arity = [i for i, src in enumerate(pool)
+             if any(src.count(f"function {nm}(") >= 2 for nm in set(re.findall(r"function\s+(\w+)\s*\(", src)))]
+    feature = None
+    if opt_users and arity:
+        feature = [rng.choice(opt_users)] + rng.sample(arity, min(len(arity), 3))
     clusters = [v for k, v in sorted(by_name.items()) if len(v) >= 2]
+    chosen = []
     if twins and rng.random() < 0.5:
-        clusters = [list(rng.choice(twins))]
+        chosen.append(list(rng.choice(twins)))
     if clusters and rng.random() < 0.6:
-        cl = rng.choice(clusters)
+        chosen.append(rng.choice(clusters))
+    if feature and rng.random() < 0.25:
+        chosen.append(feature)
+    ordered = []
+    for cl in chosen:
         o = rng.randrange(4)
-        focus = [(i, o) for i in rng.sample(cl, min(len(cl), rng.randint(2, 3)))] + focus
+        items = [(i, o) for i in (cl if cl is feature else rng.sample(cl, min(len(cl), rng.randint(2, 4))))]
+        focus = items + focus
+        ordered.append(items)
     if with_imports:
         imps = [i for i, s in enumerate(pool) if "import " in s]
         focus += [(rng.choice(imps), rng.randrange(2)) for _ in range(2)]
@@ -219,8 +234,19 @@ def generate(seed, tier):
                 "optobjs": optobjs,
                 # asserts stripped (python -O): judged only for sources that are accepted with asserts on
                 "pyopt": rng.random() < 0.12,
+                # environment variables nobody thinks about
+                "envnoise": rng.choice([{}, {}, {"COLUMNS": "40", "LINES": "10"}, {"COLUMNS": "200"}, {"TERM": "dumb", "TZ": "Asia/Tokyo"},
+                                        {"LC_ALL": "C", "COLUMNS": "72"}, {"NO_COLOR": "1", "TERM": "xterm-256color"}]),
             }
         )
+    # the members of a cluster meet in both orders: as written in one process, reversed in another
+    for items in ordered:
+        if len(procs) >= 2:
+            a, b = rng.sample(range(len(procs)), 2)
+            for pidx, seq in ((a, items), (b, list(reversed(items)))):
+                pos = rng.randrange(min(4, len(procs[pidx]["history"])) + 1)
+                procs[pidx]["history"][pos:pos] = [[i, dict(OPTSETS[o])] for i, o in seq]
+                used.update(i for i, _o in seq)
     # keep only the sources that are used; re-index
     idx = sorted(used)
     remap = {i: k for k, i in enumerate(idx)}
@@ -342,7 +368,12 @@ def _execute(sc, root, want_texts):
             "precreate": pr.get("precreate", 0),
             "optobjs": pr.get("optobjs", []),
         }
-        res, err = run_proc(pdir, plan, pr["hs"], extra_env={"PYTHONOPTIMIZE": "1"} if pr.get("pyopt") else None)
+        xenv = dict(pr.get("envnoise") or {})
+        if pr.get("pyopt"):
+            xenv["PYTHONOPTIMIZE"] = "1"
+        if pr.get("envnoise"):
+            bump("processes_with_other_environment_variables")
+        res, err = run_proc(pdir, plan, pr["hs"], extra_env=xenv or None)
         bump("processes")
         bump("cache_" + pr["cache"])
         if res is None:
